@@ -337,8 +337,9 @@ def runReq (r : Report) (st : St) (sidx : Nat) (l : Line) (m p : String) (auth :
   let dec : H → Params → String := fun h ps =>
     match rmetaOf h with
     | [(_, layers)] =>
-      let (tr, reached) := runChain auth layers
-      (if reached then fmtHitC ctx h ps else "401") ++ (if tr.isEmpty then "" else " mw=" ++ ".".intercalate tr)
+      let (tr, how) := runChain auth layers
+      (match how with | .handler => fmtHitC ctx h ps | .unauthorized => "401" | .stopped => "stopped") ++
+        (if tr.isEmpty then "" else " mw=" ++ ".".intercalate tr)
     | _ => fmtHitC ctx h ps
   let behPanics := beh.any fun k => ["perr", "pstr", "pabort", "goexit"].contains k
   let all := serveAllX st.pr m p dec behPanics
@@ -395,13 +396,26 @@ def runReq (r : Report) (st : St) (sidx : Nat) (l : Line) (m p : String) (auth :
   for oRaw in outsRaw do
     let (o, status, endK, esc) := splitExtras oRaw
     let panicked := endK.any fun k => ["perr", "pstr", "pabort", "goexit"].contains k
-    if (splitTrail o).1 = "401" then
+    if (splitTrail o).1 = "stopped" then
+      -- a user middleware (Server.Use) answered itself: acceptable iff the chain of an admissible route stops exactly there
+      let trS := (splitTrail o).2
+      let adm := Spec.admissible st.tbl m (toksO.getD [])
+      let ok := toksO.isSome && adm.any fun x =>
+        match lookupRMeta st.rmeta x.method x.pats with
+        | some (_, layers) => runChain auth layers == ((trS.splitOn ".").filter (· ≠ ""), .stopped)
+        | none => false
+      r := r.addCover "req-stopped-by-a-user-middleware"
+      if !ok then
+        r := r.violation sidx l.idx s!"request {m} {p}: the middlewares [{trS}] ran and the last one answered itself, but no admissible route [{",".intercalate (adm.map (fmtRoute (toksO.getD [])))}] has a chain that stops there"
+      if endK.isSome then
+        r := r.violation sidx l.idx s!"request {m} {p}: a middleware stopped the request but a user handler ran [{oRaw}]"
+    else if (splitTrail o).1 = "401" then
       let tr401 := (splitTrail o).2
       -- acceptable iff an admissible route was registered WithJwt and the token matches none of its secrets
       let adm := Spec.admissible st.tbl m (toksO.getD [])
       let ok := toksO.isSome && adm.any fun x =>
         match lookupRMeta st.rmeta x.method x.pats with
-        | some (jwt, layers) => !(tokenOk jwt auth) && ".".intercalate (runChain auth layers).1 == tr401
+        | some (_, layers) => runChain auth layers == ((tr401.splitOn ".").filter (· ≠ ""), .unauthorized)
         | none => false
       r := r.addCover "req-401-unauthorized"
       if tr401 ≠ "" then r := r.addCover "req-401-behind-WithChain-middlewares"
@@ -453,7 +467,7 @@ def runReq (r : Report) (st : St) (sidx : Nat) (l : Line) (m p : String) (auth :
         if trail ≠ "" then r := r.addCover "hit-behind-route-middlewares"
         if (trail.splitOn ".").any (·.startsWith "u") then r := r.addCover "hit-behind-Server.Use-middlewares"
         if (trail.splitOn ".").any (·.startsWith "c") then r := r.addCover "hit-behind-WithChain-middlewares"
-        if !ms.isEmpty ∧ !(ms.any fun x => runChain auth x.2 == ((trail.splitOn ".").filter (· ≠ ""), true)) then
+        if !ms.isEmpty ∧ !(ms.any fun x => runChain auth x.2 == ((trail.splitOn ".").filter (· ≠ ""), .handler)) then
           let regd := ms.map fun x => s!"jwt={(x.1.map fun ab => ab.1 ++ "," ++ ab.2).getD "off"} middlewares={".".intercalate ((x.2.filter fun l => match l with | .auth _ _ => false | _ => true).map Layer.tag)}"
           r := r.violation sidx l.idx s!"request {m} {p}: handler h={h} ran [middlewares={trail} token={auth.getD "none"}] but its route was registered with [{" | ".intercalate regd}]"
         if ms.isEmpty ∧ trail ≠ "" then
@@ -615,6 +629,7 @@ def runSection (r : Report) (s : Section) : Report := Id.run do
       | some k =>
         st := { st with built := true, uses := st.uses ++ [k] }
         r := r.addCover (if st.groups.isEmpty then "srv-Use-before-AddRoutes" else "srv-Use-after-AddRoutes")
+        if k ≥ 900 then r := r.addCover "srv-Use-middleware-that-does-not-call-next"
         if joinSp l.obs ≠ "ok" then r := r.mismatch s.idx l.idx "ok" (joinSp l.obs)
       | none => r := r.mismatch s.idx l.idx "bad-op" (joinSp l.op)
     | [bindOp] =>
